@@ -147,8 +147,20 @@ fn main() {
             sig.visit_file(&file);
             println!("{}", serde_json::to_string(&sig.0).unwrap());
         }
+        Some("signature-store") => {
+            // the library's own built-in external traits (Clone, fmt::*, AsRef, ...; with the `task` / `futures`
+            // features of cglue-gen also Future, Stream, Sink): what cglue_builtin_ext_traits!() expands to
+            let ts = cglue_gen::ext::impl_store();
+            let file: syn::File = syn::parse2(ts).expect("parse store");
+            let mut out = proc_macro2::TokenStream::new();
+            expand_items(file.items, &mut out);
+            let file: syn::File = syn::parse2(out).expect("reparse store");
+            let mut sig = Sig(Vec::new());
+            sig.visit_file(&file);
+            println!("{}", serde_json::to_string(&sig.0).unwrap());
+        }
         _ => {
-            eprintln!("usage: expander expand <in.rs> <out.rs> | signature <in.rs>");
+            eprintln!("usage: expander expand <in.rs> <out.rs> | signature <in.rs> | signature-store");
             std::process::exit(2);
         }
     }
